@@ -536,6 +536,15 @@ def cmdDuden (args : List String) : String :=
   | ["gross", t] => showNats ((parseNats t).map grossAscii)
   | ["klein", t] => showNats ((parseNats t).map kleinAscii)
   | ["hamming", a, b] => toString (hamming (parseNats a) (parseNats b))
+  | ["max2", a, b] => toString (max2 (parseInts a).head! (parseInts b).head!)
+  | ["min2", a, b] => toString (min2 (parseInts a).head! (parseInts b).head!)
+  | ["max3", a, b, c] => toString (max3 (parseInts a).head! (parseInts b).head! (parseInts c).head!)
+  | ["min3", a, b, c] => toString (min3 (parseInts a).head! (parseInts b).head! (parseInts c).head!)
+  | ["sign", a] => toString (sign (parseInts a).head!)
+  | ["ggT", a, b] => toString (ggT a.toNat! b.toNat!)
+  | ["kgV", a, b] => toString (kgV a.toNat! b.toNat!)
+  | ["teilbar", a, b] => showBool (teilbar (parseInts a).head! b.toNat!)
+  | ["primfaktoren", z] => showInts ((primfaktoren z.toNat!).map fun (n : Nat) => (n : Int))
   | ["vergleiche", a, b] =>
     let v := vergleiche (parseNats a) (parseNats b)
     if v == 0 then "0" else if v > 0 then "+" else "-"
